@@ -37,7 +37,7 @@ META = {
     'components_stub': ['threading.Thread / Lock / Event (simulated, virtual time)', 'storage latency and failures (spy)', 'producers (generated workloads)'],
     'budgets': {'quick': {'seconds': 40}, 'thorough': {'seconds': 600}},
     'required_probes': {'thorough': ['lock_contended', 'flush_while_producer_mid_append', 'storage_op_failed', 'storage_slow', 'final_flush_had_work',
-                                     'close_while_producer_running', 'recorder_workload', 'three_producers', 'close_timeout_shorter_than_flush_interval']},
+                                     'close_while_producer_running', 'recorder_workload', 'three_producers', 'close_timeout_shorter_than_flush_interval', 'operations_of_one_recording_issued_by_two_threads', 'more_than_1000_operations_pending_at_close']},
 }
 
 
@@ -138,6 +138,12 @@ def gen_workload(tape, run, nprod):
             end = tape.weighted([(5, 'save'), (1, 'abort'), (1, 'none')])
             recs.append({'ordinal': ordinal, 'category': tape.choice(['OpA', 'OpB']), 'ops': ops, 'end': end,
                          'pauses': [tape.choice([0, 0, 0.03, 0.1, 0.5]) for _ in range(len(ops) + 2)]})
+            if len(ops) >= 2 and tape.draw(4) == 3:
+                # a stretch of the operations on this recording is issued by a helper thread the producer starts and joins
+                # (worker threads of one operation): the request order is still total
+                lo = tape.draw(len(ops))
+                recs[-1]['relay'] = (lo, lo + 1 + tape.draw(len(ops) - lo))
+                run.probe('operations_of_one_recording_issued_by_two_threads')
             ordinal += 1
         prods.append(recs)
     return prods
@@ -168,12 +174,21 @@ def _run(tape):
         return recorder_workload(run, tape, nprod, flush_interval, preempt if place_mode == 0 else 0.0,
                                  {place_idx: place_to} if place_mode == 1 else None)
     prods = gen_workload(tape, run, nprod)
+    bulk = tape.draw(40) == 39
+    if bulk:
+        # one recording with more than a thousand operations, all still pending when close() is called
+        nops = tape.choice([1001, 1500, 2300])
+        prods = [[{'ordinal': 0, 'category': 'OpA', 'end': 'save', 'pauses': [0] * (nops + 2),
+                   'ops': [('set_data', 'k%d' % (i % 7), i) if i % 50 else ('add_metadata', None, {'m%d' % (i % 3): i}) for i in range(nops)]}]]
+        nprod, flush_interval, short_close, close_early, slow_p, fail_p, place_mode = 1, 4.0, False, False, 0.0, 0.0, 0
+        preempt = 0.0
+        run.probe('more_than_1000_operations_pending_at_close')
     if nprod == 3:
         run.probe('three_producers')
     if short_close and flush_interval > 0.5:
         run.probe('close_timeout_shorter_than_flush_interval')
     sim = Sim(tape, run, preempt_p=preempt if place_mode == 0 else 0.0, prim_p=(max(preempt, 0.1) if place_mode == 0 else 0.0),
-              target_files=[TARGET], placements={place_idx: place_to} if place_mode == 1 else None, max_steps=80000,
+              target_files=[TARGET], placements={place_idx: place_to} if place_mode == 1 else None, max_steps=3000000 if bulk else 80000,
               timeskip=0.0 if short_close else tape.choice([0.0, 0.3, 0.3]))   # a descheduled flusher may legitimately outlast a short close timeout
     ctx = Ctx(run, sim, tape)
     all_recs = [r for p in prods for r in p]
@@ -219,7 +234,8 @@ def _run(tape):
                 ctx.ordinal[rid] = r['ordinal']
                 state['ids'][r['ordinal']] = rid
                 req = state['requested'].setdefault(rid, [])
-                for n, (op, key, val) in enumerate(r['ops']):
+                def issue(n):
+                    op, key, val = r['ops'][n]
                     if r['pauses'][n]:
                         sim.sleep(r['pauses'][n])
                     if op == 'set_data':
@@ -229,6 +245,19 @@ def _run(tape):
                     # "requested before close" = the call returned before close() was invoked
                     after = state['close_invoked_at'] is not None
                     req.append((op, key, val, after))
+                relay = r.get('relay')
+                n = 0
+                while n < len(r['ops']):
+                    if relay and n == relay[0]:
+                        def helper(lo=relay[0], hi=relay[1]):
+                            for m in range(lo, hi):
+                                issue(m)
+                        h = sim.spawn(helper, name='helper%d' % r['ordinal'])
+                        sim.join(h)
+                        n = relay[1]
+                        continue
+                    issue(n)
+                    n += 1
                 if r['pauses'][-1]:
                     sim.sleep(r['pauses'][-1])
                 if r['end'] == 'save':
@@ -248,13 +277,17 @@ def _run(tape):
         else:
             for t in tasks:
                 sim.join(t)
-        pending = len(cassette._recording_operation_buffer)
+        # (reach probe only: internals may be organised differently, the oracle does not depend on them)
+        buf = getattr(cassette, '_recording_operation_buffer', None)
+        pending = len(buf) if buf is not None and hasattr(buf, '__len__') else 0
         state['close_invoked_at'] = sim.now
         if pending:
             run.probe('final_flush_had_work')
         cassette.close()
         state['close_returned'] = True
-        state['flusher_alive_after_close'] = cassette._update_recording_thread.is_alive()
+        flusher = getattr(cassette, '_update_recording_thread', None)
+        state['flusher_alive_after_close'] = flusher.is_alive() if flusher is not None else any(
+            t.name != 'main' and not t.name.startswith(('producer', 'helper')) and t.state not in ('done', 'dead') for t in sim.tasks)
         for t in tasks:
             sim.join(t)
 
